@@ -888,6 +888,54 @@ for _sfx, _kw in (("", {}), ("_axisNone", {"axis": None}), ("_axis1", {"axis": 1
 ALL += REDUCTIONS
 
 
+# ------------------------------------------------------------------ np.power / ** with a bare exponent
+class _Power(_Ufunc):
+    """np.power(q, p) / q ** p for a bare real exponent p (C04: 'powers and roots'): the result is the
+    p-th power of the SI magnitude, its dimension p times the operand's; an operand on an offset scale or in
+    logarithmic units is refused for every p != 1 (C08)"""
+    plain = False
+    need_str = False
+    properties = ("C04", "C08", "C16", "C18")
+
+    def raises(self, it, a):
+        u = self.units(a)[0]
+        p = to_real(a.inputs[1])
+        return {"InvalidUnitOperation": z3.And(z3.Or(is_ref(S.dim(u), "logarithmic"), S.offset(u) != 0), p != 1)}
+
+    def ensures(self, it, a, r, old):
+        from pyvc.unyt_domain import rpow
+        P = it.domain.prefix_table(it)
+        if not N.is_unyt_array(r):
+            return [("result is a unyt object", False)]
+        u = self.units(a)[0]
+        ru = r.fields["units"]
+        p = to_real(a.inputs[1])
+        e = to_real(old[0]["elem"])
+        k = S.scale(u)
+        # real powers (assumed, "rpow"): (k*e)**p == k**p * e**p and k**p > 0 for k > 0
+        it.assume(z3.Implies(k > 0, z3.And(rpow(k * e, p) == rpow(k, p) * rpow(e, p), rpow(k, p) > 0)))
+        plain_u = S.offset(u) == 0
+        x = e * k
+        y = S.SI(N.arr_elem(r), ru, P)
+        out = [("C06: the numbers are NumPy's power of the bare data", to_real(N.arr_elem(r)) == rpow(e, p)),
+               (self.law_tag() + ": SI(result) == SI(x) ** p", z3.Implies(z3.And(plain_u, p != 1), y == rpow(x, p))),
+               ("C04: the dimension of the result is p times the operand's",
+                z3.And(*[to_real(g) == to_real(w) * p for g, w in zip(S.dim(ru).vec, S.dim(u).vec)])),
+               ("C08: a power other than 1 of an offset-scale quantity is never returned",
+                z3.Or(plain_u, p == 1)),
+               ("result unit has no zero-point offset unless p == 1", z3.Or(p == 1, S.offset(ru) == 0))]
+        return out + self.frames(a, old) + self.class_post(it, r) + self.out_post(it, a, r)
+
+    def canary(self, it, a, r, old):
+        if not N.is_unyt_array(r):
+            return None
+        return to_real(N.arr_elem(r)) == 12345
+
+
+POWERS = [_mk(_Power, "power", ("q", "s")), _mk(_Power, "power", ("Q", "s"))]
+ALL += POWERS
+
+
 # ------------------------------------------------------------------ use at call sites
 def _callsite_result(self, it, a, old):
     """the state after a successful call, as far as the proved postconditions pin it down: a
